@@ -332,6 +332,20 @@ pub fn set_thread_slot(i: usize) {
 	MY_SLOT.with(|s| *s.borrow_mut() = Some(i));
 }
 
+/// Runs `f` on a thread that has never called into the library (thread-local state of the subject
+/// starts clean, so the history of calls is exactly what `f` does), under the caller's watchdog slot.
+pub fn in_fresh_thread<R: Send>(f: impl FnOnce() -> R + Send) -> R {
+	let slot = MY_SLOT.with(|s| *s.borrow());
+	std::thread::scope(|sc| {
+		sc.spawn(move || {
+			MY_SLOT.with(|s| *s.borrow_mut() = slot);
+			f()
+		})
+		.join()
+		.unwrap_or_else(|e| panic::resume_unwind(e))
+	})
+}
+
 pub fn slot_begin(c: &CaseRef) {
 	MY_SLOT.with(|s| {
 		if let Some(i) = *s.borrow() {
@@ -442,6 +456,32 @@ pub fn eval_case(oracle_name: &'static str, f: Oracle, input: &Arc<Vec<u8>>, p: 
 	let out = f(input, p);
 	let slept = SLEEPS_IN_CASE.with(|s| *s.borrow());
 	slot_end();
+	account_case(cx, cref, out, slept, label, local)
+}
+
+/// For enumerations with a fast path that does not go through the oracle function: the fast path
+/// failed on this case (`first_msg`). The oracle is evaluated for the artefact and the message,
+/// but the verdict of the *first* evaluation is what counts - if the re-evaluation passes, the
+/// failure depends on what the same thread did before, and is recorded as such (finish() decides by
+/// a single-thread confirmation run whether it is reproducible).
+pub fn eval_flagged(oracle_name: &'static str, f: Oracle, input: &Arc<Vec<u8>>, p: &P, label: impl FnOnce() -> String, first_msg: String, local: &mut Local) -> bool {
+	let cx = ctx();
+	let cref = CaseRef { oracle: oracle_name, input: input.clone(), p: p.clone(), label: Arc::from("") };
+	slot_begin(&cref);
+	let mut out = f(input, p);
+	let slept = SLEEPS_IN_CASE.with(|s| *s.borrow());
+	slot_end();
+	if out.viol.is_none() {
+		out.viol = Some(Viol {
+			key: format!("{}|{}|{}|first-evaluation-only", cx.prop, oracle_name, p.class),
+			msg: format!("the first evaluation of this case failed ({}) but evaluating it again did not: the result depends on what the thread did before", first_msg),
+		});
+	}
+	account_case(cx, cref, out, slept, label, local)
+}
+
+fn account_case(cx: &'static Arc<Ctx>, cref: CaseRef, out: Out, slept: u32, label: impl FnOnce() -> String, local: &mut Local) -> bool {
+	let (oracle_name, input, p) = (cref.oracle, &cref.input.clone(), &cref.p.clone());
 	local.evaluations += 1;
 	local.transitions += out.transitions;
 	if out.nontrivial {
@@ -659,6 +699,7 @@ fn finish_inner(cx: &Ctx, early: bool) -> i32 {
 	let mut code = 0;
 	let mut reported = HashSet::new();
 	let mut confirmed = 0;
+	let mut unconfirmed: Vec<(String, String)> = vec![];
 	for (v, art) in &unknown {
 		if !reported.insert(v.key.clone()) {
 			continue;
@@ -721,11 +762,11 @@ fn finish_inner(cx: &Ctx, early: bool) -> i32 {
 								}
 							}
 						}
-						eprintln!(
-							"machinery: violation not reproduced identically in a fresh process (nondeterministic harness?)\n  key: {}\n  replay said: {}",
-							v.key, so
-						);
-						return 2;
+						// not reproducible in any of the three ways: not a verdict. Other violations of this run may
+						// still be; if none is, the run ends as a machinery failure below.
+						let _ = std::fs::remove_file(&path);
+						unconfirmed.push((v.key.clone(), so.to_string()));
+						continue;
 					}
 				}
 				Err(e) => {
@@ -741,6 +782,14 @@ fn finish_inner(cx: &Ctx, early: bool) -> i32 {
 		if confirmed >= 20 {
 			println!("  (further distinct violations not listed)");
 			break;
+		}
+	}
+	if !unconfirmed.is_empty() {
+		for (k, so) in &unconfirmed {
+			eprintln!("machinery: a violation was not reproduced, neither from a fresh process nor in this one nor by a one-thread run (nondeterministic harness?)\n  key: {}\n  replay said: {}", k, so.trim());
+		}
+		if confirmed == 0 {
+			return 2;
 		}
 	}
 	write_evidence(cx, unknown.len() as u64, &known_hits);
